@@ -82,6 +82,17 @@ def _mux_order_public(s):
     return {k: list(v["parents"]) for k, v in doc.items() if isinstance(v, dict) and "parents" in v}
 
 
+def _refs(reg, idx):
+    """the ordered parent references the registry holds for node idx, as a list (any sequence type), else None"""
+    try:
+        r = reg.get(idx) if hasattr(reg, "get") else reg[idx]
+    except Exception:
+        return None
+    if isinstance(r, (list, tuple)):
+        return list(r)
+    return None
+
+
 def project(s):
     g = s._g
     at = g.attrs
@@ -131,23 +142,35 @@ def project(s):
         elif pub_order is not None:
             pass
         elif len(preds) > 1:
-            refs = at["pnames"].get(idx)
+            refs = _refs(at["pnames"], idx)
             ok = False
-            if isinstance(refs, list) and len(refs) == len(preds):
+            if refs is not None and len(refs) == len(preds):
                 try:
-                    ridx = [node_of(s, r) for r in refs]
+                    # a reference is a component / rail name, or (another representation of the same registry) a node index
+                    ridx = [r if isinstance(r, int) and not isinstance(r, bool) else node_of(s, r) for r in refs]
                     ok = sorted(ridx) == sorted(preds)
                 except Exception:
                     ok = False
             if ok:
                 pn = [g[p]._params["name"] for p in ridx]
             else:
-                pn = sorted(pn)
-                anom.append(["pnames", "stale-parent-order", name])
+                # the registry does not describe the edges in a form the projection reads: what the public save() document
+                # says decides - only if that is inconsistent too is the parent order stale
+                want = None
+                try:
+                    want = _mux_order_public(s).get(name)
+                except Exception:
+                    want = None
+                if isinstance(want, list) and sorted(want) == sorted(pn):
+                    DEGRADED["mux_order_from_save"] += 1
+                    pn = list(want)
+                else:
+                    pn = sorted(pn)
+                    anom.append(["pnames", "stale-parent-order", name])
         elif len(preds) == 1:
             # a mux declared with several references of which only one edge survives
-            refs = at["pnames"].get(idx)
-            if isinstance(refs, list) and len(refs) > 1:
+            refs = _refs(at["pnames"], idx)
+            if refs is not None and len(refs) > 1:
                 anom.append(["pnames", "more-references-than-edges", name])
         comps.append(
             {
@@ -173,6 +196,10 @@ def project(s):
 # reports through the public API only
 
 
+IPR_DATA = ("_x", "_y", "_fx", "_fxy", "_xmin", "_xmax", "_ymin", "_ymax")
+REGISTRIES = ("name", "nodes", "rails", "groups", "phase_conf", "pnames", "phases")
+
+
 def deep_digest(s):
     """digest of everything reachable from the System that an analysis could scribble on: node
     payloads (params, limits, interpolation arrays), registries, phase tables"""
@@ -193,9 +220,12 @@ def deep_digest(s):
     for idx in g.node_indices():
         c = g[idx]
         ipr = getattr(c, "_ipr", None)
-        iprd = {k: canon(v) for k, v in vars(ipr).items() if k != "_intp"} if ipr is not None else None
+        # the interpolator's table data (the attributes that hold it today); anything else it may keep - a memo of the last
+        # lookup, a lazily built triangulation - is private working state, not "the system"
+        iprd = {k: canon(v) for k, v in vars(ipr).items() if k in IPR_DATA} if ipr is not None else None
         nodes[str(idx)] = {"cls": type(c).__name__, "params": canon(c._params), "limits": canon(c._limits), "ipr": iprd}
-    attrs = {k: canon(v) for k, v in g.attrs.items() if k not in ("hidx",)}
+    # the registries that ARE the system (DESIGN 1); derived tables an analysis may cache next to them are not
+    attrs = {k: canon(v) for k, v in g.attrs.items() if k in REGISTRIES}
     edges = sorted([list(g.get_edge_endpoints_by_index(e)) for e in g.edge_indices()])
     return digest({"nodes": nodes, "attrs": attrs, "edges": edges})
 
